@@ -74,7 +74,23 @@ def alphabet3(W=2):
     return {"vars": [["x", W], ["y", W], ["z", W]], "cons": cons, "exprs": exprs, "extras": extras, "W": W}
 
 
+def alphabet1(W=2):
+    """the one-variable alphabet explored by spec/SolverCache.tla; denotations are given next to the terms and are
+    re-checked against Z3 by the engine before they are handed to TLC"""
+    x = BVS("x", W)
+    K = lambda v: BVV(v, W)  # noqa: E731
+    cons = [(T("ULT", x, K(2)), [0, 1]), (T("__eq__", T("__and__", x, K(1)), K(1)), [1, 3]), (T("__eq__", x, K(2)), [2]),
+            (T("__ne__", x, K(3)), [0, 1, 2]), (T("__ne__", x, K(0)), [1, 2, 3]), (T("SLT", x, K(0)), [2, 3]),
+            (T("__eq__", x, K(0)), [0]), (T("UGT", x, K(2)), [3])]
+    extras = [([], [0, 1, 2, 3]), ([T("__eq__", T("__and__", x, K(1)), K(1))], [1, 3]), ([T("__eq__", x, K(0))], [0]),
+              ([T("SLT", x, K(0))], [2, 3])]
+    return {"vars": [["x", W]], "cons": [c for c, _ in cons], "cden": [d for _, d in cons],
+            "extras": [e for e, _ in extras], "eden": [d for _, d in extras], "exprs": [x], "W": W}
+
+
 def get_alphabet(job):
+    if job.get("alpha") == "x1":
+        return alphabet1(job.get("W", 2))
     if job.get("alpha") == "xyz":
         return alphabet3(job.get("W", 2))
     A = alphabet(job["W"], with_bool=job.get("with_bool", False))
@@ -387,7 +403,9 @@ def run_history(H, vars_, tid, cfg):
                 others = [S[o] for o in op[2]]
                 e["others"], e["cs"], e["anc"] = op[2], op[3], op[4]
                 anc = S[op[4]] if op[4] >= 0 else None
-                _, mg = sol.merge(others, [B(c) for c in op[3]], common_ancestor=anc)
+                conds = [B(c) for c in op[3]]
+                e["cfalse"] = any(c.op == "BoolV" and c.args[0] is False for c in conds)
+                _, mg = sol.merge(others, conds, common_ancestor=anc)
                 S[nid] = mg
                 meta[nid] = meta[s]
                 e["new"] = [nid]
